@@ -59,6 +59,13 @@ CLAIMED = {
             "rank lists, non-contiguous and lazily conjugated core views, requires_grad cores), all four dtypes.",
             "Trusted: torch.equal, storage pointers, the checker's dense contraction. CPU only.",
             "DESIGN.md 4/C19"),
+    "C14": ("property-based testing (Hypothesis): generated low-rank / smooth targets with small and non-uniform modes, monitored user callback (argument validity) and dense accuracy oracle",
+            "Generated search over routine x target family x order x non-uniform modes (incl. modes < rank+kick) x eps x "
+            "seed x start tensor; a monitor wrapped around the user function checks every argument it receives "
+            "(index ranges / membership in the argument tensors), and the result is compared with the dense target "
+            "(5 eps bound).",
+            "Trusted: the checker's dense target arrays. 'All seeds' is sampled; kick/nswp at defaults.",
+            "DESIGN.md 4/C14"),
     "C13": ("property-based testing (Hypothesis): generated x and positive y = c + z*z, all division forms/options/seeds, multiply-back (inverse) oracle on dense arrays",
             "Generated search over form x order x modes x ranks x eps x preconditioner x starting tensor x kick x seed with "
             "the inverse relation q*y = x evaluated densely (5*tol bound) and exact scalar division.",
